@@ -41,6 +41,7 @@ type SolverStats struct {
 	Unknown  int
 	Errors   int
 	Fallback int // queries re-sent to the portfolio solvers
+	Killed   int // solver processes killed by the watchdog
 	BySolver map[string]int
 	Time     time.Duration
 	CrossChecked  int
@@ -54,6 +55,7 @@ func (a *SolverStats) Add(b *SolverStats) {
 	a.Unknown += b.Unknown
 	a.Errors += b.Errors
 	a.Fallback += b.Fallback
+	a.Killed += b.Killed
 	a.Time += b.Time
 	a.CrossChecked += b.CrossChecked
 	a.CrossDisagree += b.CrossDisagree
@@ -70,6 +72,7 @@ type Solver struct {
 	cmd        *exec.Cmd
 	in         io.WriteCloser
 	out        *bufio.Reader
+	lines      chan string
 	transcript []string
 	defined    map[int]bool
 	declared   map[string]bool
@@ -81,6 +84,7 @@ type Solver struct {
 	Log        io.Writer
 	dead       bool
 	lemma      map[int]Result // fp-sub lemma per width
+	Deadline   time.Time      // queries after this instant answer unknown (case budget)
 }
 
 func NewSolver(timeoutMs int) (*Solver, error) {
@@ -107,6 +111,19 @@ func (s *Solver) start() error {
 		return err
 	}
 	s.cmd, s.in, s.out = cmd, in, bufio.NewReaderSize(out, 1<<16)
+	s.lines = make(chan string, 256)
+	go func(r *bufio.Reader, ch chan string) {
+		defer close(ch)
+		for {
+			line, err := r.ReadString('\n')
+			if line != "" {
+				ch <- strings.TrimRight(line, "\r\n")
+			}
+			if err != nil {
+				return
+			}
+		}
+	}(s.out, s.lines)
 	s.dead = false
 	s.Reset()
 	return nil
@@ -181,29 +198,47 @@ func (s *Solver) Assert(t *Term) {
 	s.emit("(assert " + t.ref() + ")")
 }
 
-// readUntilMarker collects output lines until the echo marker.
+// readUntilMarker collects output lines until the echo marker. A solver that
+// does not answer within its own timeout plus a grace period is killed (z3 does
+// not always honour :timeout inside nlsat); the caller then sees an error.
 func (s *Solver) readUntilMarker() ([]string, error) {
 	s.marker++
 	m := fmt.Sprintf("@@%d@@", s.marker)
 	s.send("(echo \"" + m + "\")")
 	var lines []string
+	if s.dead {
+		return lines, fmt.Errorf("solver dead")
+	}
+	timer := time.NewTimer(time.Duration(s.TimeoutMs)*time.Millisecond + 5*time.Second)
+	defer timer.Stop()
 	for {
-		line, err := s.out.ReadString('\n')
-		if err != nil {
+		select {
+		case line, ok := <-s.lines:
+			if !ok {
+				s.dead = true
+				return lines, fmt.Errorf("solver exited")
+			}
+			if strings.Contains(line, m) {
+				return lines, nil
+			}
+			lines = append(lines, line)
+		case <-timer.C:
+			s.Stats.Killed++
+			s.cmd.Process.Kill()
 			s.dead = true
-			return lines, err
+			return lines, fmt.Errorf("solver watchdog")
 		}
-		line = strings.TrimRight(line, "\r\n")
-		if strings.Contains(line, m) {
-			return lines, nil
-		}
-		lines = append(lines, line)
 	}
 }
 
 // Check asks whether context ∧ extra is satisfiable; with vars, returns a model on sat.
 func (s *Solver) Check(extra []*Term, vars []*Term) (Result, map[string]string) {
 	t0 := time.Now()
+	if !s.Deadline.IsZero() && t0.After(s.Deadline) {
+		s.Stats.Queries++
+		s.Stats.Unknown++
+		return Unknown, nil
+	}
 	defer func() { s.Stats.Time += time.Since(t0) }()
 	s.Stats.Queries++
 	for _, e := range extra {
